@@ -43,7 +43,7 @@ type c20Group struct {
 // groups in which an operator GLINEs.
 var c20OperSafeKinds = []string{"config-read", "direct-config", "snapshot", "getmessages", "direct-output", "direct-store", "config-read", "direct-config"}
 
-var c20Kinds = []string{"post", "post-same-session", "getmessages", "create-delete", "status", "config-read", "expire", "snapshot", "direct-ircserver", "direct-output", "direct-store", "nick-while-polling", "getmessages-reconnect", "restore"}
+var c20Kinds = []string{"origin-request", "config-write", "post", "post-same-session", "getmessages", "create-delete", "status", "config-read", "expire", "snapshot", "direct-ircserver", "direct-output", "direct-store", "nick-while-polling", "getmessages-reconnect", "restore"}
 
 func c20Run(g c20Group, base string, k int) (overlap bool, err error) {
 	dir := newNodeDir(base, k)
@@ -180,6 +180,23 @@ func c20Run(g c20Group, base string, k int) (overlap bool, err error) {
 					if atomic.LoadInt32(&applying) > 0 {
 						atomic.StoreInt32(&overlapped, 1)
 					}
+				case "origin-request":
+					// a browser client: the request carries an Origin header, which is looked up in the
+					// configuration before the request is dispatched
+					b, _ := json.Marshal(map[string]interface{}{"Data": fmt.Sprintf("PRIVMSG #c :o%d", op), "ClientMessageId": nextCMID()})
+					atomic.AddInt32(&applying, 1)
+					n.public("POST", cred.Id+"/message", b, map[string]string{"X-Session-Auth": cred.Auth, "Origin": []string{"https://web.example", "https://other.example"}[r.Intn(2)]})
+					atomic.AddInt32(&applying, -1)
+				case "config-write":
+					// the administrator posts a new configuration (a Config entry replaces the
+					// configuration of the running server)
+					c2 := cfg
+					if r.Intn(2) == 0 {
+						c2 += "[WhitelistedOrigins]\n\"https://web.example\" = true\n"
+					}
+					atomic.AddInt32(&applying, 1)
+					n.setConfig(c2)
+					atomic.AddInt32(&applying, -1)
 				case "config-read":
 					n.private("GET", "/config", nil, "robustirc", nodePassword, nil)
 					if atomic.LoadInt32(&applying) > 0 {
